@@ -265,6 +265,15 @@ class FileWeave:
                 else:
                     self.ins(s.start, d.payload + '        ', d)
                 d.used = True
+        for d in self.find_dirs('loopbody', key):
+            try:
+                n = int(d.args.split(' :: ', 1)[1].split()[0])
+            except (IndexError, ValueError):
+                raise WeaveError('%r: missing " :: <ordinal>"' % d)
+            if n > len(loops):
+                raise AnchorLost('%r: fn %s has %d loops' % (d, key, len(loops)))
+            self.ins(loops[n - 1][1] + 1, '\n' + d.payload, d)
+            d.used = True
         for d in self.find_dirs('loop', key):
             # args: <fnkey> :: <ordinal> [iter=<name>]
             try:
@@ -492,6 +501,9 @@ def weave(repo='/repo', contracts='/verif/contracts', extra_modules=()):
     # assemble + line map
     prelude = open(os.path.join(contracts, 'prelude.rs')).read()
     specs = open(os.path.join(contracts, 'specs.rs')).read()
+    import alg as ALG
+    w.alg_lemmas = ALG.parse(os.path.join(contracts, 'alg.lem'))
+    specs = ALG.verus_text(w.alg_lemmas) + specs
     buf = [CRATE_HEAD, 'pub mod vp {\nuse vstd::prelude::*;\n', prelude, '\n', specs, '\n} // mod vp\nuse crate::vp::*;\n']
     extra = ''
     for em in extra_modules:
